@@ -335,11 +335,16 @@ def _bounded_janssen(tier, seed):
     par = gen.parameters
     rho, kap, elev = float(par["air_density"]), float(par["vonkarman_constant"]), float(par["elevation"])
     fails, evals, closed, nans, samples = [], 0, 0, 0, []
-    logz = np.linspace(-19.5, -0.5, 77)
+    logz = np.linspace(-19.75, -0.05, 80)
     for k in range(n_spec):
         fp, md = rng.uniform(0.1, 0.25), rng.uniform(0, 360)
-        E1 = (f / fp) ** -5 * np.exp(-1.25 * (f / fp) ** -4) * rng.uniform(0.3, 2.0)
+        # wind sea of realistic steepness Hs*kp/2 in 0.03..0.08 (the balance of an arbitrary level need not have a single root)
+        kp = (2 * np.pi * fp) ** 2 / 9.81
+        hs = 2 * rng.uniform(0.03, 0.08) / kp
+        E1 = (f / fp) ** -5 * np.exp(-1.25 * (f / fp) ** -4)
+        E1 = E1 / np.trapezoid(E1, f) * (hs / 4) ** 2
         D = np.abs(np.cos(np.radians(d - md) / 2)) ** (2 * rng.uniform(3, 10))
+        D = D / (D.sum() * 15.0)
         offsets = np.array([0.0, 25.0, -40.0, 70.0, 120.0, 180.0])                 # wind relative to the waves: aligned, oblique, opposing
         npnt = len(offsets)
         E = np.broadcast_to((E1[:, None] * D[None, :])[None], (npnt, len(f), len(d))).copy()
@@ -388,8 +393,9 @@ def _bounded_janssen(tier, seed):
                 row = scan[p]
                 ok = np.isfinite(row)
                 changes = int(np.sum((row[:-1] * row[1:] < 0) & ok[:-1] & ok[1:]))
-                if changes != 1 or ok.sum() < 40:
-                    continue          # no single root visible in the scan (or the stress is mostly not evaluable there)
+                if changes != 1 or not ok[logz <= -2.0].all():
+                    continue          # premise not established: one sign change, and the balance evaluable at every scan point up to z = e^-2 m
+                                      # (above that the tail-stress solver of the library itself may fail; those points are skipped)
                 zz = np.where(np.arange(npnt) == p, z0[p], 1e-4)
                 try:
                     res, scale = balance(zz)
@@ -406,7 +412,7 @@ def _bounded_janssen(tier, seed):
         fails.append({"what": "no case with a single root and a finite roughness in the whole domain (vacuous)", "evaluations": evals})
     return {"evaluations": evals, "distinct": evals, "failures": fails[:6], "samples": samples,
             "domain": (f"ST4 input with WAM tail stress, {n_spec} JONSWAP-type seas (deep / 15-60 m) x 6 wind directions relative to the waves (0, 25, -40, 70, 120, 180 deg) x "
-                       f"U10 5-25 m/s and u* 0.15-1 m/s; balance scanned at 77 roughness values in (e^-19.5, e^-0.5); closed={closed} nan={nans}")}
+                       f"U10 5-25 m/s and u* 0.15-1 m/s; balance scanned at 80 roughness values in (e^-19.75, e^-0.05), premise = exactly one sign change and every scan value up to e^-2 m finite; seas of steepness 0.03-0.08; closed={closed} nan={nans}")}
 
 
 BOUNDED = [Bounded("janssen.stress_balance.compiled", _bounded_janssen, "NaN-or-positive and closure of the stress balance at the returned roughness"),
